@@ -104,6 +104,14 @@ impl Wake for FlagWaker {
 	}
 }
 
+static ROUND_ROBIN: AtomicBool = AtomicBool::new(false);
+
+/// Canonical order of the enabled threads other than the running one: ascending ids (default) or
+/// cyclic after the running thread. Set per scenario, before any execution of it starts.
+pub fn set_round_robin(on: bool) {
+	ROUND_ROBIN.store(on, Ordering::SeqCst);
+}
+
 impl Sched {
 	fn enabled_list(st: &State) -> Vec<usize> {
 		let mut v = vec![];
@@ -124,7 +132,12 @@ impl Sched {
 				v.push(c);
 			}
 		}
-		for i in 0..st.threads.len() {
+		let n = st.threads.len();
+		// default order of the other threads: ascending ids, or (round-robin mode) cyclically
+		// starting after the thread that ran last
+		let start = if ROUND_ROBIN.load(Ordering::SeqCst) { st.current.map(|c| c + 1).unwrap_or(0) } else { 0 };
+		for k in 0..n {
+			let i = (start + k) % n;
 			if Some(i) != st.current && en(i) {
 				v.push(i);
 			}
